@@ -13,8 +13,7 @@ import (
 //verif:case C12,C09 quick VerifStreamMerge 2 0..1 -1..0 -1
 //verif:case C12,C09 thorough VerifStreamMerge 2 1 1 -1
 //verif:case C12,C09 quick VerifStreamMerge 1..2 1 -1 0..1
-//verif:case C12,C09 thorough VerifStreamMerge 2 2 -1..2 -1
-//verif:case C12,C09 thorough VerifStreamMerge 3 1 -1..1 -1
+//verif:case C12,C09 thorough VerifStreamMerge 3 0 -1..0 -1
 //verif:case C12,C09 quick VerifStreamMergeBlocked 1..2
 
 // vBlockSrc: an input whose Next blocks until its context is cancelled.
@@ -84,6 +83,11 @@ func VerifStreamMerge(k int, n int, errPos int, closeAfter int) {
 		vAssert(ended || gotErr, "C12:smerge/finishes-when-inputs-do")
 	}
 	out.Close()
+	for i := range srcs {
+		n := 0
+		vAtomic(func() { n = srcs[i].closes })
+		vAssert(n == 1, "C09:smerge/input-closed-by-the-time-close-returns")
+	}
 	vQuiesce()
 	vAssert(vBlockedCount() == 0, "C12:smerge/goroutines-finish-after-close")
 	for i := range srcs {
@@ -105,6 +109,11 @@ func VerifStreamMergeBlocked(k int) {
 	out := Merge[int](ins...)
 	vYield()
 	out.Close()
+	for i := range bs {
+		n := 0
+		vAtomic(func() { n = bs[i].closes })
+		vAssert(n == 1, "C09:smerge/input-closed-by-the-time-close-returns")
+	}
 	vQuiesce()
 	vAssert(vBlockedCount() == 0, "C12:smerge/goroutines-finish-after-close")
 	for i := range bs {
